@@ -358,6 +358,13 @@ CORPUS = [
     ("module-basic", {"/r/go.mod": "module m.com/x\n", "/r/sub/main.arrai": [{"root": False, "path": "/a", "dec": False}, {"root": True, "path": "/b/c", "dec": False}, {"root": False, "path": "/d.json", "dec": False}],
                       "/r/sub/a.arrai": [], "/r/b/c.arrai": [{"root": True, "path": "/sub/a", "dec": False}], "/r/sub/d.json": []}, "/r/sub/main.arrai"),
     ("prefix-sibling", {"/a/b/go.mod": "module m\n", "/a/b/main.arrai": [{"root": True, "path": "/c/x", "dec": False}], "/a/b/c/x.arrai": [], "/a/bc/x.arrai": []}, "/a/b/main.arrai"),
+    # module paths written as Go string literals (go.mod allows "..." and `...`): the text after `module ` is used as written
+    ("quoted-module-path", {"/v/go.mod": 'module "ex.com/v"\n', "/v/cmd/main.arrai": [{"root": False, "path": "/lib", "dec": False}, {"root": True, "path": "/x", "dec": False}],
+                            "/v/cmd/lib.arrai": [], "/v/x.arrai": []}, "/v/cmd/main.arrai"),
+    ("backquoted-module-path", {"/v/go.mod": "module `ex.com/v`\n\ngo 1.20\n", "/v/main.arrai": [{"root": False, "path": "/a", "dec": False}], "/v/a.arrai": [{"root": True, "path": "/b", "dec": False}],
+                                "/v/b.arrai": []}, "/v/main.arrai"),
+    ("quoted-nested-module", {"/r/go.mod": "module m\n", "/r/main.arrai": [{"root": False, "path": "/n/x", "dec": False}], "/r/n/go.mod": 'module "n.io/q"\n',
+                              "/r/n/x.arrai": [{"root": True, "path": "/y", "dec": False}], "/r/n/y.arrai": []}, "/r/main.arrai"),
     ("crlf", {"/r/go.mod": "module m\r\n", "/r/main.arrai": [{"root": True, "path": "/a", "dec": False}], "/r/a.arrai": []}, "/r/main.arrai"),
     ("kf06-modname-dotdot", {"/b/go.mod": "module ..\n", "/b/run.arrai": [{"root": False, "path": "/config", "dec": False}], "/b/config.arrai": []}, "/b/run.arrai"),
     ("extless-sibling-module", {"/p/go.mod": "module example.com/proj\n", "/p/main.arrai": [{"root": False, "path": "/build", "dec": False}, {"root": False, "path": "/build.arrai", "dec": False}],
